@@ -37,6 +37,8 @@ type gGenCfg struct {
 	busy       string
 	hold       bool
 	hr         string // host rewrite rule <rep|app>:<pinned local|->:<iface|->:<ext+ext+...>
+	cg         bool   // continual gathering
+	mi         int    // monitor interval (ms), 0 = default
 	ifaces     string
 }
 
@@ -53,8 +55,12 @@ func (c gGenCfg) String() string {
 		}
 		return s
 	}
-	return fmt.Sprintf("ct=%s,nt=%s,pmin=%d,pmax=%d,rif=%s,rip=%s,lo=%s,md=%s,um=%s,tm=%s,sm=%s,su=%d,tu=%d,tf=%d,rr=%s,sr=%s,busy=%s,hold=%s,hr=%s",
+	out := fmt.Sprintf("ct=%s,nt=%s,pmin=%d,pmax=%d,rif=%s,rip=%s,lo=%s,md=%s,um=%s,tm=%s,sm=%s,su=%d,tu=%d,tf=%d,rr=%s,sr=%s,busy=%s,hold=%s,hr=%s",
 		c.ct, d(c.nt), c.pmin, c.pmax, d(c.rif), d(c.rip), b(c.lo), b(c.md), d(c.um), d(c.tm), d(c.sm), c.su, c.tu, c.tf, d(c.rr), d(c.sr), d(c.busy), b(c.hold), d(c.hr))
+	if c.cg {
+		out += fmt.Sprintf(",cg=1,mi=%d", c.mi)
+	}
+	return out
 }
 
 var gNetSubsets = func() []string {
@@ -319,7 +325,138 @@ func gRandCfg(r *vRand) gGenCfg {
 	if r.chance(1, 40) {
 		c.pmin, c.pmax, c.busy = 6000, 5000, "" // constructor refuses: PortMax < PortMin
 	}
+	if r.chance(1, 6) {
+		// continual gathering: monitor intervals that never put a tick on the instant of a STUN / TURN timeout
+		// (primes; the clock of such a session only moves by whole seconds, see gRandSession)
+		c.cg = true
+		c.mi = []int{733, 1361, 2111, 397}[r.intn(4)]
+		if !hostOnly && c.pmin <= c.pmax && (c.pmin != 0 || c.pmax != 0) {
+			c.pmin, c.pmax = 40000, 40100 // every pass opens further sockets: room for all of them
+		}
+	}
 	return c
+}
+
+// ---- continual gathering: changes of the interface table ----
+
+type gTbl []gIface
+
+func gTblString(t gTbl) string {
+	if len(t) == 0 {
+		return "-"
+	}
+	var parts []string
+	for _, f := range t {
+		fl := ""
+		if f.up {
+			fl += "u"
+		}
+		if f.loop {
+			fl += "l"
+		}
+		if fl == "" {
+			fl = "-"
+		}
+		as := "-"
+		if len(f.addrs) > 0 {
+			as = strings.Join(f.addrs, "+")
+		}
+		parts = append(parts, strings.TrimPrefix(f.name, "if")+":"+fl+":"+as)
+	}
+	return strings.Join(parts, "/")
+}
+
+// gMutateTable: one change of the interface table: an address appears (global, or loopback / link-local /
+// site-local / IPv4-compatible / an address the IP filter rejects), an address disappears, an interface goes
+// down or comes up, a new interface (sometimes a loopback one) appears.
+func gMutateTable(r *vRand, tbl string, rip string, allowDup bool) string {
+	t := gTbl(gParseIfaces(tbl))
+	have := map[string]bool{}
+	for _, f := range t {
+		for _, a := range f.addrs {
+			have[a] = true
+		}
+	}
+	fresh := func() string {
+		pool := []string{"g4.1", "g4.2", "g4.3", "g4.4", "g4.5", "g4.6", "g6.1", "g6.2", "g6.3", "g6.4", "g4.1", "g6.1", "g4.2",
+			"k6.1", "k6.2", "s6.1", "s6.3", "c6.1", "c6.2", "k4.1", "l4.1", "l6.1", "l4.2"}
+		if rip != "" && rip != "n" && r.chance(1, 4) {
+			pool = strings.Split(rip, "+") // an address the IP filter rejects
+		}
+		for i := 0; i < 20; i++ {
+			a := pool[r.intn(len(pool))]
+			if !have[a] || (allowDup && r.chance(1, 4)) {
+				return a
+			}
+		}
+		return ""
+	}
+	for try := 0; try < 8; try++ {
+		switch x := r.intn(10); {
+		case x < 5 && len(t) > 0: // an address appears
+			a := fresh()
+			i := r.intn(len(t))
+			dup := false
+			for _, b := range t[i].addrs {
+				dup = dup || b == a
+			}
+			if a == "" || dup {
+				continue
+			}
+			t[i].addrs = append(append([]string{}, t[i].addrs...), a)
+			return gTblString(t)
+		case x < 7 && len(t) > 0: // an address disappears
+			i := r.intn(len(t))
+			if len(t[i].addrs) == 0 {
+				continue
+			}
+			k := r.intn(len(t[i].addrs))
+			t[i].addrs = append(append([]string{}, t[i].addrs[:k]...), t[i].addrs[k+1:]...)
+			return gTblString(t)
+		case x < 8 && len(t) > 0: // an interface goes down / comes up
+			i := r.intn(len(t))
+			t[i].up = !t[i].up
+			return gTblString(t)
+		default: // a new interface
+			if len(t) >= 5 {
+				continue
+			}
+			f := gIface{name: fmt.Sprintf("if%d", len(t)), up: !r.chance(1, 6), loop: r.chance(1, 4)}
+			if a := fresh(); a != "" {
+				f.addrs = []string{a}
+				if f.loop && r.chance(2, 3) {
+					f.addrs = []string{[]string{"l4.1", "l6.1", "l4.2"}[r.intn(3)]}
+					if have[f.addrs[0]] && !allowDup {
+						continue
+					}
+				}
+			}
+			t = append(t, f)
+			return gTblString(t)
+		}
+	}
+	return gTblString(t)
+}
+
+// gFlush (continual sessions): answer every parked request and open the gate until the monitor goroutine is
+// idle. A Restart while the monitor is inside a pass and a tick waits in the ticker's channel leaves the
+// cancelled monitor a `select` with two ready cases: which one Go takes is not determined (notes/C18.md).
+func gFlush(out string, emit func(string) string) string {
+	for i := 0; i < 64; i++ {
+		ns, nt := gPendCount(out)
+		held := gField(out, "held") != "0" && gField(out, "held") != ""
+		switch {
+		case held:
+			out = emit("gather release")
+		case ns > 0:
+			out = emit("gather stunreply 0 1")
+		case nt > 0:
+			out = emit("gather turnreply 0 ok1")
+		default:
+			return out
+		}
+	}
+	return out
 }
 
 // gHostExtPool: external addresses of host rules.  Indices 70..73 hit the four sub-ranges of each class; l6.1 /
@@ -464,6 +601,11 @@ func gRandSession(o *vOut, r *vRand, c gGenCfg, emit func(string) string, maxOps
 	}
 	n := 2 + r.intn(maxOps)
 	closed := false
+	tbl := c.ifaces
+	changes := 0
+	if c.cg {
+		n += 4
+	}
 	for i := 0; i < n; i++ {
 		ns, nt := gPendCount(out)
 		held := gField(out, "held") != "0" && gField(out, "held") != ""
@@ -472,41 +614,71 @@ func gRandSession(o *vOut, r *vRand, c gGenCfg, emit func(string) string, maxOps
 		if closed && r.chance(1, 2) {
 			break
 		}
+		if c.cg {
+			// continual gathering: 1-4 changes of the interface table at random moments; the clock moves by whole
+			// seconds only (no tick then falls on the instant of a timeout); no Failed (its instant is not ours to
+			// choose); Restart only with the monitor idle (gFlush)
+			y := r.intn(100)
+			switch {
+			case changes < 4 && !closed && (y < 22 || (changes == 0 && i >= 2 && st == "gathering")):
+				tbl = gMutateTable(r, tbl, c.rip, c.ct == "h")
+				changes++
+				out = emit("gather ifaces " + tbl)
+				o.stat("cg.ifaces")
+				continue
+			case y < 45 && st == "gathering":
+				out = emit(fmt.Sprintf("gather adv %d", []int{1000, 1000, 2000, 3000, 5000, 8000}[r.intn(6)]))
+				continue
+			case y < 50 && c.um != "" && strings.Contains(c.ct, "h") && !held && !closed:
+				out = emit("gather hold")
+				continue
+			}
+		}
+		var op string
 		switch {
 		case st == "new" && x < 12:
-			out = emit("gather gather2")
+			op = "gather2"
 		case st == "new" && x < 18:
-			out = emit("gather grg")
+			op = "grg"
 		case st == "new" && x < 55:
-			out = emit("gather gather")
+			op = "gather"
 		case x < 3:
-			out = emit("gather gather2")
+			op = "gather2"
 		case x < 5:
-			out = emit("gather grg")
+			op = "grg"
 		case x < 8:
-			out = emit("gather gather")
+			op = "gather"
 		case ns > 0 && x < 45:
-			out = emit(fmt.Sprintf("gather stunreply %d %d", r.intn(ns), 1+r.intn(3)))
+			op = fmt.Sprintf("stunreply %d %d", r.intn(ns), 1+r.intn(3))
 		case nt > 0 && x < 60:
 			if r.chance(1, 4) {
-				out = emit(fmt.Sprintf("gather turnreply %d fail", r.intn(nt)))
+				op = fmt.Sprintf("turnreply %d fail", r.intn(nt))
 			} else {
-				out = emit(fmt.Sprintf("gather turnreply %d ok%d", r.intn(nt), 1+r.intn(3)))
+				op = fmt.Sprintf("turnreply %d ok%d", r.intn(nt), 1+r.intn(3))
 			}
 		case held && x < 70:
-			out = emit("gather release")
+			op = "release"
 		case x < 78:
-			out = emit("gather restart")
+			op = "restart"
 		case x < 90:
-			out = emit(fmt.Sprintf("gather adv %d", []int{1, 2500, 4999, 5000, 5001, 3000, 8000, 7999}[r.intn(8)]))
+			op = fmt.Sprintf("adv %d", []int{1, 2500, 4999, 5000, 5001, 3000, 8000, 7999}[r.intn(8)])
 		case x < 93 && !closed:
-			out = emit("gather fail")
+			op = "fail"
 		case x < 97:
-			out = emit("gather close")
+			op = "close"
 			closed = true
 		default:
-			out = emit("gather restart")
+			op = "restart"
 		}
+		if c.cg {
+			switch {
+			case op == "restart" || op == "grg":
+				out = gFlush(out, emit)
+			case strings.HasPrefix(op, "adv ") || op == "fail":
+				op = fmt.Sprintf("adv %d", []int{1000, 2000, 3000, 5000, 8000}[r.intn(5)])
+			}
+		}
+		out = emit("gather " + op)
 		o.stat("st." + gField(out, "st"))
 	}
 	emit("gather end")
@@ -535,6 +707,95 @@ func gSystematic(o *vOut, r *vRand, emit func(string) string, cfgs []gGenCfg) {
 				}
 				emit("gather end")
 			}
+		}
+	}
+}
+
+// gContinual: directed scripts for continual gathering. The first pass is over at virtual time 0 (every request
+// is answered at once), so the monitor's ticks fall on the multiples of the interval and every script knows them.
+func gContinual(emit func(op string) string) {
+	run := func(c gGenCfg, ops ...string) {
+		c.cg = true
+		out := emit("gather new " + c.String() + " " + c.ifaces)
+		if !strings.HasPrefix(out, "r=ok") {
+			return
+		}
+		for _, op := range ops {
+			if op == "flush" {
+				out = gFlush(out, emit)
+				continue
+			}
+			out = emit("gather " + op)
+		}
+		emit("gather end")
+	}
+	t0 := "0:u:g4.1"
+	// (a) an address appears just before / exactly at a tick; special-purpose, loopback, filtered addresses and a
+	// down interface appear; an address disappears; an interface goes down and comes back; Restart; Close
+	for _, c := range []gGenCfg{
+		{ct: "h", nt: "", mi: 733, ifaces: t0},
+		{ct: "h", nt: "u4+t4+t6", tm: "any", mi: 733, ifaces: t0},
+		{ct: "h", nt: "", um: "g4.1+g6.1", tm: "g4.2", mi: 733, ifaces: t0},
+		{ct: "h", nt: "u4+u6", rip: "g4.2+g6.2", rif: "2", mi: 733, ifaces: t0},
+		{ct: "h", nt: "", md: true, lo: true, mi: 733, ifaces: t0},
+		{ct: "h", nt: "u4", pmin: 5000, pmax: 5000, mi: 733, ifaces: t0},
+		{ct: "h", nt: "u4+u6", pmin: 5000, pmax: 5001, busy: "g4.2:5000", mi: 733, ifaces: t0},
+		{ct: "h", nt: "", hr: "rep:-:-:x4.70+x6.70", mi: 733, ifaces: t0},
+		{ct: "hs", nt: "u4", su: 1, mi: 733, ifaces: t0},
+		{ct: "hs", nt: "", su: 1, sm: "g4.1", um: "g4.1", mi: 733, ifaces: t0},
+		{ct: "hsr", nt: "", su: 1, tu: 1, rif: "n", mi: 733, ifaces: t0},
+		{ct: "s", nt: "u4", sr: "rep2", mi: 733, ifaces: t0},
+		{ct: "r", nt: "u4", tu: 1, rr: "app", mi: 733, ifaces: t0},
+	} {
+		run(c, "gather", "flush", "adv 732", "ifaces 0:u:g4.1+g4.2", "adv 1", "flush",
+			"ifaces 0:u:g4.1+g4.2/1:u:g6.1+k6.1+s6.1+c6.1/2:ul:l4.1+l6.1/3:-:g4.5", "adv 733", "flush",
+			"ifaces 0:u:g4.2/1:u:g6.1+k6.1+s6.1+c6.1+g6.2/2:ul:l4.1+l6.1/3:-:g4.5", "adv 733", "flush",
+			"ifaces 0:-:g4.2/1:u:g6.1+k6.1+s6.1+c6.1+g6.2/2:ul:l4.1+l6.1/3:u:g4.5", "adv 733", "flush",
+			"ifaces 0:u:g4.2/1:u:g6.1/3:u:g4.5", "adv 733", "flush", "adv 1466",
+			"restart", "adv 2000", "gather", "flush", "ifaces 0:u:g4.2+g4.3/1:u:g6.1/3:u:g4.5", "adv 733", "flush", "close")
+	}
+	// (b) the default interval (2 s)
+	run(gGenCfg{ct: "h", nt: "", mi: 0, ifaces: t0}, "gather", "ifaces 0:u:g4.1+g4.2", "adv 1999", "adv 1", "ifaces 0:u:g4.2", "adv 2000", "close")
+	// (c) Restart / Close / a refused GatherCandidates while a re-gather pass is parked at the gate of the UDP mux
+	for _, mid := range []string{"restart", "close", "gather", "grg"} {
+		for _, c := range []gGenCfg{{ct: "h", nt: "", um: "g4.1", mi: 733, ifaces: t0}, {ct: "hs", nt: "u4", su: 1, um: "g4.1+g4.2", tm: "any", mi: 733, ifaces: t0}} {
+			run(c, "gather", "flush", "ifaces 0:u:g4.1+g4.2", "hold", "adv 733", mid, "release", "flush", "adv 733", "gather", "flush",
+				"ifaces 0:u:g4.1+g4.2+g4.3", "adv 733", "flush", "close")
+		}
+	}
+	// (d) … while it waits for a STUN answer / a TURN allocation: the reply arrives after the cancellation (no
+	// virtual time in between: see gFlush), or never (Close)
+	for _, mid := range []string{"restart", "close", "grg"} {
+		for _, c := range []gGenCfg{
+			{ct: "hs", nt: "u4", su: 1, mi: 733, ifaces: t0},
+			{ct: "hs", nt: "u4+u6", su: 2, sm: "g4.1", mi: 733, ifaces: t0},
+			{ct: "r", nt: "u4", tu: 1, mi: 733, ifaces: t0},
+			{ct: "hsr", nt: "", su: 1, tu: 1, mi: 733, ifaces: t0},
+		} {
+			run(c, "gather", "flush", "ifaces 0:u:g4.1+g4.2", "adv 733", mid, "flush", "adv 8000", "gather", "flush",
+				"ifaces 0:u:g4.1+g4.2+g6.1", "adv 733", "flush", "adv 5000", "close")
+			run(c, "gather", "flush", "ifaces 0:u:g4.1+g4.2", "adv 733", "close", "adv 5000", "adv 3000")
+		}
+	}
+	// (e) ticks while the monitor is inside a pass: one is kept, the pass that follows sees the latest table
+	run(gGenCfg{ct: "hs", nt: "u4", su: 1, mi: 733, ifaces: t0}, "gather", "flush", "ifaces 0:u:g4.1+g4.2", "adv 733",
+		"ifaces 0:u:g4.1+g4.2+g4.3", "adv 1466", "stunreply 0 2", "adv 1", "flush", "ifaces 0:u:g4.3", "adv 5000", "flush", "close")
+	run(gGenCfg{ct: "hs", nt: "u4", su: 1, mi: 733, ifaces: t0}, "gather", "flush", "ifaces 0:u:g4.1+g4.2", "adv 733", "adv 5000", "adv 733", "close")
+	// (f) the table changes while the FIRST pass is still running; an address an earlier cycle knew comes back
+	// after a Restart (C18-G10)
+	run(gGenCfg{ct: "hs", nt: "u4", su: 1, mi: 733, ifaces: t0}, "gather", "ifaces 0:u:g4.1+g4.2", "stunreply 0 1", "adv 733", "adv 733", "close")
+	run(gGenCfg{ct: "h", nt: "u4", mi: 733, ifaces: "0:u:g4.1+g4.2"}, "gather", "ifaces 0:u:g4.1", "restart", "gather",
+		"ifaces 0:u:g4.1+g4.2", "adv 733", "adv 733", "ifaces 0:u:g4.1+g4.2+g4.3", "adv 733", "close")
+	// (g) Close while a re-gather pass waits for its TURN allocation (C09-G11)
+	run(gGenCfg{ct: "r", nt: "u4", tu: 1, mi: 733, ifaces: t0}, "gather", "turnreply 0 ok1", "ifaces 0:u:g4.1+g4.2", "adv 733", "close", "adv 1000", "adv 8000")
+	// (h) Failed removes the candidates; the monitor goes on
+	run(gGenCfg{ct: "h", nt: "u4", mi: 733, ifaces: t0}, "gather", "fail", "ifaces 0:u:g4.1+g4.2", "adv 1000", "restart", "gather", "adv 733", "close")
+	// (i) GatherOnce with a changing table: nothing is re-gathered
+	{
+		c := gGenCfg{ct: "h", nt: "", ifaces: t0}
+		emit("gather new " + c.String() + " " + c.ifaces)
+		for _, op := range []string{"gather", "ifaces 0:u:g4.1+g4.2", "adv 5000", "restart", "gather", "end"} {
+			emit("gather " + op)
 		}
 	}
 }
@@ -698,6 +959,8 @@ func gGen(o *vOut, r *vRand, thorough bool, args []string, emit func(op string) 
 	} else {
 		emit("gather stress 2500")
 	}
+	// 4c. continual gathering (GatherContinually + monitor interval): the interface table changes during the session
+	gContinual(emit)
 	// 5. random configuration product x random scripts
 	n := 700
 	maxOps := 10
